@@ -331,12 +331,16 @@ func c07order(c *an.Ctx) {
 			return true
 		}
 		adv := false
-		for _, st := range fs.Body.List {
+		stmts := append([]ast.Stmt{}, fs.Body.List...)
+		if fs.Post != nil {
+			stmts = append(stmts, fs.Post) // for sc := …; sc != nil; sc = sc.parent
+		}
+		for _, st := range stmts {
 			if as, ok := st.(*ast.AssignStmt); ok && len(as.Lhs) == 1 && len(as.Rhs) == 1 && p.FieldKey(info, as.Rhs[0]) == "scope.parent" {
 				adv = true
 			}
 		}
-		if adv && fs.Cond != nil && strings.HasSuffix(strings.ReplaceAll(an.Str(fs.Cond), " ", ""), "!=nil") {
+		if b, isBin := an.Unparen(fs.Cond).(*ast.BinaryExpr); adv && fs.Cond != nil && isBin && b.Op == token.NEQ && (an.Str(b.Y) == "nil" || an.Str(b.X) == "nil") {
 			okLoop = true
 		}
 		return true
@@ -353,6 +357,20 @@ func c07set(c *an.Ctx) {
 	}
 	info := f.Info()
 	x := p.NewExplorer(f, an.Hooks{
+		Branch: func(x *an.Explorer, cond ast.Expr, val bool, st *an.State) {
+			// the walker ran off the end of the chain: <scope pointer> != nil is false (== nil is true)
+			if b, ok := an.Unparen(cond).(*ast.BinaryExpr); ok && (b.Op == token.NEQ || b.Op == token.EQL) {
+				xe, ye := an.Unparen(b.X), an.Unparen(b.Y)
+				if an.Str(xe) == "nil" {
+					xe, ye = ye, xe
+				}
+				if an.Str(ye) == "nil" && val == (b.Op == token.EQL) {
+					if tv, ok := info.Types[xe]; ok && tv.Type != nil && an.TypeName(tv.Type) == "*jet.scope" {
+						st.Set("walkedOut", "1")
+					}
+				}
+			}
+		},
 		PreAssign: func(x *an.Explorer, lhs, rhs ast.Expr, stmt ast.Node, st *an.State) {
 			if ix, ok := an.Unparen(lhs).(*ast.IndexExpr); ok && p.FieldKey(info, ix.X) == "scope.variables" {
 				if rebinding(x, st, ix) {
@@ -389,13 +407,7 @@ func c07set(c *an.Ctx) {
 		case !isNil:
 			sawErr = true
 			// the error exit must lie after a loop that walked parents: the fact sc == nil holds
-			walkedOut := false
-			for k, v := range ex.State.Facts {
-				pk := an.PlainKey(k)
-				if v && (strings.HasSuffix(pk, " == nil") || strings.HasPrefix(pk, "nil == ")) {
-					walkedOut = true
-				}
-			}
+			walkedOut := ex.State.Get("walkedOut") != ""
 			if !walkedOut {
 				ok, why = false, "setValue gives up before the scope chain was walked to its end"
 			}
@@ -404,7 +416,11 @@ func c07set(c *an.Ctx) {
 	walks := false
 	an.InspectOwn(f, func(n ast.Node) bool {
 		if fs, isFor := n.(*ast.ForStmt); isFor {
-			for _, st := range fs.Body.List {
+			stmts := append([]ast.Stmt{}, fs.Body.List...)
+			if fs.Post != nil {
+				stmts = append(stmts, fs.Post)
+			}
+			for _, st := range stmts {
 				if as, isAs := st.(*ast.AssignStmt); isAs && len(as.Rhs) == 1 && p.FieldKey(info, as.Rhs[0]) == "scope.parent" {
 					walks = true
 				}
